@@ -21,7 +21,7 @@ fn any_image_point() -> (f64, f64) {
 /// quad: 0..=3 = x in [2 quad, 2 quad + 2) (quad 3 also takes x = 8), 255 = any
 fn k_c11_point(nside: u32, role: u8, region: u8, quad: u8) {
   let (x, y) = any_image_point();
-  kani::assume(f4_role(x, y) == (role == 1));
+  if role < 2 { kani::assume(f4_role(x, y) == (role == 1)); }
   kani::assume(match region { 0 => y > 1.0, 1 => y >= -1.0 && y <= 1.0, 2 => y < -1.0, _ => true });
   if quad < 4 {
     kani::assume(x >= 2.0 * quad as f64 && (quad == 3 || x < 2.0 * quad as f64 + 2.0));
